@@ -311,6 +311,8 @@ pub struct Info {
     pub small_int: bool,
     pub zst_registered: bool,
     pub mentions_zst: bool,
+    pub over_aligned: bool,
+    pub max_align: usize,
 }
 
 pub fn info<T: B>() -> Info {
@@ -322,17 +324,21 @@ pub fn info<T: B>() -> Info {
         small_int: T::small_int(),
         zst_registered: T::zst_registered(),
         mentions_zst: T::mentions_zst(),
+        over_aligned: T::over_aligned(),
+        max_align: T::max_align(),
     }
 }
 
 pub fn case_json(i: &Info, route: &str, pos: u64, idx: usize, value: &str, script: &str) -> Value {
     json!({"route": route, "ty": i.roto, "class": i.class, "depth": i.depth, "small_int": i.small_int,
-           "zst_registered": i.zst_registered, "pos": pos, "value_index": idx, "value": value, "script": script,
-           "fillers": FILL_ROTO})
+           "zst_registered": i.zst_registered, "max_align": i.max_align,
+           "pos": pos, "value_index": idx & 0xffff_ffff, "stack_residue_class": idx >> 32,
+           "value": value, "script": script, "fillers": FILL_ROTO})
 }
 
 pub fn runtime_with(items: Vec<Item>) -> Result<Runtime<NoCtx>, String> {
     let mut rt = Runtime::from_lib(host::lib()).map_err(|e| format!("host lib: {e}"))?;
+    rt.add(crate::align::items()).map_err(|e| format!("aligned types: {e}"))?;
     rt.add(items).map_err(|e| format!("check lib: {e}"))?;
     Ok(rt)
 }
@@ -408,6 +414,28 @@ fn getfn_violation(cx: &mut Cx, i: &Info, route: &str, rcode: u64, pos: u64, scr
     );
 }
 
+/// Reports the misalignment events recorded by the over-aligned types since
+/// the last `take_events` as one violation of class "misaligned".
+#[allow(clippy::too_many_arguments)]
+pub fn misaligned_violation(cx: &mut Cx, i: &Info, route: &str, pos: u64, idx: usize, input: &str, script: &str, s: u64) {
+    let ev = crate::align::take_events();
+    if ev.is_empty() {
+        return;
+    }
+    let mut c = case_json(i, route, pos, idx, input, script);
+    c["all_on_stack"] = json!(ev.iter().all(|e| e.on_stack));
+    c["misaligned_type_align"] = json!(ev.iter().map(|e| e.align).max());
+    let ops: Vec<String> =
+        ev.iter().map(|e| format!("{} {}: address % {} = {}", e.ty, e.op, e.align, e.rem)).collect();
+    cx.violation(
+        "misaligned",
+        s,
+        c,
+        json!("every address at which a registered type is cloned, dropped or compared is a multiple of its alignment"),
+        json!(ops),
+    );
+}
+
 /// One (route, position) loop, on rendered values only (not generic):
 /// `call(i)` runs case i on the implementation and returns what arrived
 /// (the value and the sink log); `want(i)` is what was sent.
@@ -427,20 +455,26 @@ struct Loop<'a> {
 fn run_loop(cx: &mut Cx, l: &Loop, n: usize, call: &mut dyn FnMut(usize) -> (String, Vec<String>)) {
     let mut cnt = 0u64;
     let mut h = 0u64;
-    for i in 0..n {
+    let mut reached = 4;
+    for i0 in 0..n {
+      let r = crate::align::for_residues(l.info.over_aligned, &mut |k| {
+        // the stack residue class is part of the case id
+        let i = i0 | ((k as usize) << 32);
         let s = sub(l.rcode, l.pos, i);
         if !cx.case(s) {
-            continue;
+            return;
         }
-        let (want, want_log) = (l.want)(i);
-        let (got, got_log) = call(i);
+        let (want, want_log) = (l.want)(i0);
+        crate::align::take_events();
+        let (got, got_log) = call(i0);
         let got = clean(got);
         cnt += 1;
+        misaligned_violation(cx, l.info, l.route, l.pos, i, &(l.input)(i0), l.script, s);
         h = vcore::util::mix(h, vcore::util::fnv_str(&got));
         if got != want || got_log != want_log {
-            let mut c = case_json(l.info, l.route, l.pos, i, &(l.input)(i), l.script);
+            let mut c = case_json(l.info, l.route, l.pos, i, &(l.input)(i0), l.script);
             if let Some(f) = l.fillers {
-                c["filler_values"] = json!(f(i));
+                c["filler_values"] = json!(f(i0));
                 c["value_mismatch"] = json!(got != want);
                 // r3: the value is part of the log at position pos
                 let mut a = got_log.clone();
@@ -469,6 +503,11 @@ fn run_loop(cx: &mut Cx, l: &Loop, n: usize, call: &mut dyn FnMut(usize) -> (Str
             };
             cx.violation("mismatch", s, c, e, o);
         }
+      });
+      reached = reached.min(r);
+    }
+    if reached < 4 {
+        cx.count("stack_residues_not_reached", 1);
     }
     cx.states(cnt);
     cx.transitions(cnt);
@@ -549,10 +588,11 @@ pub fn describe_g1<T: B>(t: Tier, s: u64) -> Value {
         return json!({"route": "r1", "kind": "setup", "ty": inf.roto, "script": script_g1(&inf.roto)});
     }
     let (_, p, i) = unsub(s);
+    let i0 = i & 0xffff_ffff;
     let ev = T::edges(t);
-    let v = ev.get(i).map(|v| v.show()).unwrap_or_default();
+    let v = ev.get(i0).map(|v| v.show()).unwrap_or_default();
     let mut c = case_json(&inf, "r1", p, i, &v, &script_r1(&inf.roto, p));
-    c["filler_values"] = json!(fill(i, p).shows());
+    c["filler_values"] = json!(fill(i0, p).shows());
     c
 }
 
@@ -633,7 +673,7 @@ pub fn describe_g3<T: B>(t: Tier, s: u64) -> Value {
     }
     let (r, p, i) = unsub(s);
     let ev = T::edges(t);
-    let v = ev.get(i).map(|v| v.show()).unwrap_or_default();
+    let v = ev.get(i & 0xffff_ffff).map(|v| v.show()).unwrap_or_default();
     if r == R4 {
         case_json(&inf, "r4", 0, i, &v, &script_r4(&inf.roto))
     } else {
@@ -689,35 +729,49 @@ pub fn run_g2<T: B>(cx: &mut Cx) {
             // one tiny script function per value: the loop is over functions
             let mut cnt = 0u64;
             let mut h = 0u64;
-            for i in idx {
-                let s = sub(rcode, 0, i);
-                if !cx.case(s) {
+            let mut reached = 4;
+            for i0 in idx {
+                let script =
+                    if rcode == R2 { script_r2(&inf.roto, i0, &lits[i0]).unwrap() } else { script_r5(&inf.roto, i0) };
+                if !cx.case(sub(rcode, 0, i0)) {
                     continue;
                 }
-                let script = if rcode == R2 { script_r2(&inf.roto, i, &lits[i]).unwrap() } else { script_r5(&inf.roto, i) };
-                let func = match pkg.get_function::<fn() -> T>(&format!("{route}_{i}")) {
+                let func = match pkg.get_function::<fn() -> T>(&format!("{route}_{i0}")) {
                     Ok(f) => f,
                     Err(e) => {
                         getfn_violation(cx, &inf, route, rcode, 0, &script, e.to_string());
                         break;
                     }
                 };
-                let r = func.call_tuple(&mut NoCtx, ());
-                let got = clean(r.show());
-                drop(r);
-                cnt += 1;
-                h = vcore::util::mix(h, vcore::util::fnv_str(&got));
-                if got != sh[i] {
-                    let mut c = case_json(&inf, route, 0, i, &sh[i], &script);
-                    c["arrived_this_run"] = json!(got);
-                    cx.violation(
-                        "mismatch",
-                        s,
-                        c,
-                        json!({"arrived": sh[i]}),
-                        json!({"arrived_agrees_up_to": agree_prefix(&sh[i], &got)}),
-                    );
-                }
+                let r = crate::align::for_residues(inf.over_aligned, &mut |k| {
+                    let i = i0 | ((k as usize) << 32);
+                    let s = sub(rcode, 0, i);
+                    if !cx.case(s) {
+                        return;
+                    }
+                    crate::align::take_events();
+                    let r = func.call_tuple(&mut NoCtx, ());
+                    let got = clean(r.show());
+                    drop(r);
+                    cnt += 1;
+                    h = vcore::util::mix(h, vcore::util::fnv_str(&got));
+                    misaligned_violation(cx, &inf, route, 0, i, &sh[i0], &script, s);
+                    if got != sh[i0] {
+                        let mut c = case_json(&inf, route, 0, i, &sh[i0], &script);
+                        c["arrived_this_run"] = json!(got);
+                        cx.violation(
+                            "mismatch",
+                            s,
+                            c,
+                            json!({"arrived": sh[i0]}),
+                            json!({"arrived_agrees_up_to": agree_prefix(&sh[i0], &got)}),
+                        );
+                    }
+                });
+                reached = reached.min(r);
+            }
+            if reached < 4 {
+                cx.count("stack_residues_not_reached", 1);
             }
             cx.states(cnt);
             cx.transitions(cnt);
@@ -750,13 +804,14 @@ pub fn describe_g2<T: B>(t: Tier, s: u64) -> Value {
     if r == R7 || r == R9 {
         return T::r7_describe(t, r, p, i);
     }
-    let v = ev.get(i);
+    let i0 = i & 0xffff_ffff;
+    let v = ev.get(i0);
     let show = v.map(|v| v.show()).unwrap_or_default();
     if r == R2 {
-        let sc = v.and_then(|v| script_r2(&inf.roto, i, &v.lit())).unwrap_or_default();
+        let sc = v.and_then(|v| script_r2(&inf.roto, i0, &v.lit())).unwrap_or_default();
         case_json(&inf, "r2", 0, i, &show, &sc)
     } else {
-        case_json(&inf, "r5", 0, i, &show, &script_r5(&inf.roto, i))
+        case_json(&inf, "r5", 0, i, &show, &script_r5(&inf.roto, i0))
     }
 }
 
@@ -859,10 +914,11 @@ pub fn r7_option<P: B>(cx: &mut Cx) {
 
 pub fn r7_option_describe<P: B>(t: Tier, pos: u64, idx: usize) -> Value {
     let src = script_r7_option(&P::roto());
+    let i0 = idx & 0xffff_ffff;
     let input = if pos == 1 {
-        P::edges(t).get(idx).map(|v| v.show())
+        P::edges(t).get(i0).map(|v| v.show())
     } else {
-        <Option<P>>::edges(t).get(idx).map(|v| v.show())
+        <Option<P>>::edges(t).get(i0).map(|v| v.show())
     };
     r7_case(&info::<Option<P>>(), pos, idx, &input.unwrap_or_default(), &src)
 }
@@ -946,10 +1002,11 @@ pub fn r7_two<A: B, E: B, R: B>(
 
 pub fn r7_two_describe<A: B, E: B, R: B>(n: &Names, t: Tier, pos: u64, idx: usize) -> Value {
     let src = script_r7_two(n, &A::roto(), &E::roto());
+    let i0 = idx & 0xffff_ffff;
     let input = match pos {
-        1 => A::edges(t).get(idx).map(|v| v.show()),
-        2 => E::edges(t).get(idx).map(|v| v.show()),
-        _ => R::edges(t).get(idx).map(|v| v.show()),
+        1 => A::edges(t).get(i0).map(|v| v.show()),
+        2 => E::edges(t).get(i0).map(|v| v.show()),
+        _ => R::edges(t).get(i0).map(|v| v.show()),
     };
     r7_case(&info::<R>(), pos, idx, &input.unwrap_or_default(), &src)
 }
@@ -1093,9 +1150,10 @@ pub fn r9_describe<E: B>(t: Tier, pos: u64, idx: usize) -> Value {
     let input = if sh.is_empty() {
         String::new()
     } else if pos >= 5 {
-        format!("{} get({})", r9_input(&sh, (idx / 4).min(sh.len() - 1)), idx % 4)
+        let i0 = idx & 0xffff_ffff;
+        format!("{} get({})", r9_input(&sh, (i0 / 4).min(sh.len() - 1)), i0 % 4)
     } else {
-        r9_input(&sh, idx.min(sh.len() - 1))
+        r9_input(&sh, (idx & 0xffff_ffff).min(sh.len() - 1))
     };
     let mut c = case_json(&inf, "r9", pos, idx, &input, &script_r9(&inf.roto));
     c["what"] = json!(R9_WHAT[(pos as usize).min(7)]);
